@@ -133,7 +133,7 @@ def s3(ck, an):
     # now() returns the clock set by notify
     fn = an.fa("TradingEnv.now")
     rets = [fn.sym.canon(r.value) for r in returns_in(fn)]
-    ck.check(rets == ["ite([self._real_time], self._transmitter._now(), self._now)"], "ARGFLOW", "S3.now-is-the-clock", fn.f.short, fn.f.loc, "now() is the event clock (simulated mode)",
+    ck.check(rets == [spec(fn, "self._transmitter._now() if self._real_time else self._now").key()], "ARGFLOW", "S3.now-is-the-clock", fn.f.short, fn.f.loc, "now() is the event clock (simulated mode)",
              f"now() returns {rets}", construct="return self._now")
 
 
@@ -235,12 +235,19 @@ NOW = "env.broker.net_liquidation_value()"
 
 def s6(ck, an):
     base = an.prog.cls("AbstractReward")
-    subs = [c for c in an.prog.subclasses(base) if "calculate" in c.methods and not c.module.name.startswith("_fixture")]
+    def calc_of(c):
+        # the calculate() a reward class actually runs (own or inherited): each class is held to ITS OWN stated formula
+        for b in an.prog.mro(c):
+            if "calculate" in b.methods and not b.methods["calculate"].is_abstract:
+                return b.methods["calculate"]
+        return None
+    subs = [c for c in an.prog.subclasses(base) if calc_of(c) is not None and not c.module.name.startswith("_fixture")]
     ck.floor("reward classes with calculate()", len(subs), 4)
     spec = {"RewardPnL": f"{NOW} - {LAST}", "RewardSimpleReturn": f"{NOW} / {LAST} - 1", "RewardLogReturn": f"np.log({NOW} / {LAST})"}
     for c in subs:
-        f = c.methods["calculate"]
+        f = calc_of(c)
         fa = an.fa(f)
+        subj = f.short if f.cls is c else f"{c.name}.calculate (inherited from {f.cls.name})"
         envp = f.params[1]
 
         def risk(s, fw):
@@ -256,26 +263,26 @@ def s6(ck, an):
         fw = Forward(an, fa, skip_if=risk, call_effects=False).run()
         rets = [v for r, v, st in fw.returns if v is not None]
         if len(rets) != 1:
-            ck.fail("SIB", "S6.reward-formula", f.short, f.loc, f"{c.name}.calculate has {len(rets)} value returns", construct="return")
+            ck.fail("SIB", "S6.reward-formula", subj, f.loc, f"{c.name}.calculate has {len(rets)} value returns", construct="return")
             continue
         ret = rets[0]
         txt = ret.key().replace(envp + ".", "env.")
         atoms = {a.replace(envp + ".", "env.") for a in ret.atoms()}
         flat = " ".join(sorted(atoms))
-        ck.check(LAST in flat and NOW in flat, "SIB", "S6.reward-reads-recorded-pre-nlv-and-current-nlv", f.short, f.loc,
+        ck.check(LAST in flat and NOW in flat, "SIB", "S6.reward-reads-recorded-pre-nlv-and-current-nlv", subj, f.loc,
                  "the reward is a function of the last entry's pre-trade NLV and the current NLV", f"{c.name} reward reads {flat[:200]}", construct="calculate inputs")
-        ck.check("context_post" not in flat and "_initial_deposit" not in flat, "SIB", "S6.reward-not-post-trade", f.short, f.loc, "the reward does not use the post-trade snapshot",
+        ck.check("context_post" not in flat and "_initial_deposit" not in flat, "SIB", "S6.reward-not-post-trade", subj, f.loc, "the reward does not use the post-trade snapshot",
                  f"{c.name} reward reads {flat[:200]}", construct="calculate inputs")
         fe = Forward(an, fa, call_effects=False)
         if c.name in spec:
             exp = fe.ev(ast.parse(spec[c.name].replace("env.", envp + "."), mode="eval").body)
-            ck.check(ret == exp, "LIN", "S6.reward-formula", f.short, f.loc, f"{c.name} = {spec[c.name].replace(NOW, 'NLV_now').replace(LAST, 'NLV_pre')}",
+            ck.check(ret == exp, "LIN", "S6.reward-formula", subj, f.loc, f"{c.name} = {spec[c.name].replace(NOW, 'NLV_now').replace(LAST, 'NLV_pre')}",
                      f"{c.name} returns {txt}; expected {exp.key()}", construct=f"{c.name}.calculate")
         elif c.name == "LogReturn":
             exp = fe.ev(ast.parse(f"np.clip(np.log({NOW} / {LAST}) / self.scale, -self.clip, +self.clip)".replace("env.", envp + "."), mode="eval").body)
-            ck.check(ret == exp, "LIN", "S6.reward-formula", f.short, f.loc, "LogReturn = clip(log(NLV_now / NLV_pre) / scale, -clip, +clip), then risk aversion on negatives",
+            ck.check(ret == exp, "LIN", "S6.reward-formula", subj, f.loc, "LogReturn = clip(log(NLV_now / NLV_pre) / scale, -clip, +clip), then risk aversion on negatives",
                      f"LogReturn returns {txt}; expected {exp.key()}", construct="LogReturn.calculate")
-            ck.check(len(risk_seen) == 1, "LIN", "S6.risk-aversion-shape", f.short, f.loc, "negative rewards are multiplied by (1 + risk_aversion) after clipping",
+            ck.check(len(risk_seen) == 1, "LIN", "S6.risk-aversion-shape", subj, f.loc, "negative rewards are multiplied by (1 + risk_aversion) after clipping",
                      "the risk-aversion step is missing or has another shape", construct="if ret < 0: ret *= 1 + self.risk_aversion")
             summ = attribute_summary(an, c.methods["__init__"]) if "__init__" in c.methods else {}
             for a in ("scale", "clip", "risk_aversion"):
